@@ -364,7 +364,7 @@ def rule_override(ctx, rep, by_loc):
                     rep.find('D-OVERRIDE', fi.short, l,
                              '%s: %s - after an exception the override of %s stays in force for the rest of the process'
                              % (fi.short, why, l), loc(model.unit_of(fi), w.node))
-    rep.floor('D-OVERRIDE', n, 2)
+    rep.floor('D-OVERRIDE', n, 1)
 
 
 def rule_entry_rewrite(ctx, rep, by_loc):
